@@ -221,7 +221,7 @@ def check(run, replay=None):
     if not os.environ.get("VERIF_ASAN_RERUN"):
         from .. import sched_kernels
         sched_kernels.attach(run, ["v_connectedpixels"], 24 if run.tier == "quick" else 240,
-                             [[1, 0], [2, 1], [4, 1], [16, 1], [64, 1]], "connectedpixels")
+                             [[1, 0], [2, 4], [4, 1], [16, 4], [64, 1]], "connectedpixels")
         run.require_counter("sched_determinism_comparisons", 20)
     run.require_counter("label_arrays_checked", 1000)
     run.require_counter("sparse_runs", 100)
